@@ -166,3 +166,56 @@ Proof.
   exists c. split; [exact Hs|apply raceb_sound; exact Hr].
 Qed.
 
+
+(* ---- the check rejects what the deadlock clause forbids ------------------------------------------ *)
+(* lock-order inversion: taking mutex 0 while holding mutex 1 *)
+Example lock_order_inversion_rejected :
+  ok (fun _ => 0) (fun _ => false) (fun _ => false) [] [] [Acq 0 MW; Acq 1 MW; Rel 1 MW; Rel 0 MW] = true /\
+  ok (fun _ => 0) (fun _ => false) (fun _ => false) [] [] [Acq 1 MW; Acq 0 MW; Rel 0 MW; Rel 1 MW] = false.
+Proof. split; reflexivity. Qed.
+
+(* returning with the lock held, re-entrant acquisition, releasing in the wrong mode, blocking under
+   a lock at a site that is not listed *)
+Example lock_misuse_rejected :
+  ok (fun _ => 0) (fun _ => false) (fun _ => false) [] [] [Acq 0 MR; Rd 3] = false /\
+  ok (fun _ => 0) (fun _ => false) (fun _ => false) [] [] [Acq 0 MW; Acq 0 MW; Rel 0 MW; Rel 0 MW] = false /\
+  ok (fun _ => 0) (fun _ => false) (fun _ => false) [] [] [Acq 0 MR; Rel 0 MW] = false /\
+  ok (fun _ => 0) (fun _ => false) (fun _ => false) [] [] [Acq 0 MR; Blk 0; Rel 0 MR] = false /\
+  ok (fun _ => 0) (fun _ => false) (fun s => Nat.eqb s 0) [] [] [Acq 0 MR; Blk 0; Rel 0 MR] = true.
+Proof. repeat split; reflexivity. Qed.
+
+(* two threads that take two mutexes in opposite orders do get stuck: after each has taken its first
+   mutex neither can step (so the order check is not stronger than needed for this program) *)
+Example inversion_gets_stuck :
+  exists c,
+    steps [] (init [[Acq 0 MW; Acq 1 MW; Rel 1 MW; Rel 0 MW]; [Acq 1 MW; Acq 0 MW; Rel 0 MW; Rel 1 MW]]) c /\
+    (exists t, In t (ts c) /\ code t <> []) /\
+    forall i a c', ~ step [] c i a c'.
+Proof.
+  destruct (frun_example [] [[Acq 0 MW; Acq 1 MW; Rel 1 MW; Rel 0 MW]; [Acq 1 MW; Acq 0 MW; Rel 0 MW; Rel 1 MW]]
+              [(0, []); (1, [])]
+              (fun c => wl (lk c 0) && wl (lk c 1) &&
+                        match ts c with
+                        | [t0; t1] => match code t0, code t1 with
+                                      | Acq 1 MW :: _, Acq 0 MW :: _ => true
+                                      | _, _ => false
+                                      end
+                        | _ => false
+                        end)) as (c & Hs & Hc); [vm_compute; reflexivity|].
+  exists c. split; [exact Hs|].
+  apply andb_prop in Hc as [Hl Hc]. apply andb_prop in Hl as [Hl0 Hl1].
+  destruct (ts c) as [|t0 [|t1 [|]]] eqn:Ets; try discriminate.
+  destruct (code t0) as [|[[|[|]] [|]| | | | | |] k0] eqn:E0; try discriminate.
+  destruct (code t1) as [|[[|] [|]| | | | | |] k1] eqn:E1; try discriminate.
+  split.
+  - exists t0. split; [left; reflexivity|]. rewrite E0. discriminate.
+  - intros i a c' Hstep.
+    assert (forall l r (t : thread), [t0; t1] = l ++ t :: r -> t = t0 \/ t = t1) as Hmid.
+    { intros l r t E. destruct l as [|x [|y [|]]]; inversion E; subst; auto.
+      all: try (destruct l; discriminate). }
+    inversion Hstep as [l r h k c0 m E Hw Hr|l r h k c0 m E Hw|l r h k c0 m E|l r h k c0 m E
+                       |l r h k f c0 E|l r h k f c0 E|l r h k s c0 E|l r h k b cd c0 E Hx|l r h k b cd c0 E Hx];
+      subst; rewrite Ets in E; destruct (Hmid _ _ _ E) as [Ht|Ht];
+      (rewrite <- Ht in E0 || rewrite <- Ht in E1); cbn in *; try discriminate;
+      try (inversion E0; subst; congruence); try (inversion E1; subst; congruence).
+Qed.
